@@ -331,6 +331,10 @@ def _cwd(path):
         os.chdir(old)
 
 
+#: the known finding C12-rp66v1-same-stem: the RP66V1 converter names its outputs without the extension of the input
+SIG_SHARED = 'two-inputs-share-output-names'
+
+
 def check(case, cc):
     logging.disable(logging.CRITICAL)
     from TotalDepth.common import Slice
@@ -446,7 +450,7 @@ def check(case, cc):
                     collide.add(k)
                 union[k] = v
         if collide:
-            dev(O_TREE, 'two-inputs-share-output-names', '%s: outputs %r are written by more than one input file' % (what, sorted(collide)[:6]))
+            dev(O_TREE, SIG_SHARED if conv == 'RP66V1' else SIG_SHARED + ':' + conv, '%s: outputs %r are written by more than one input file' % (what, sorted(collide)[:6]))
         # ---- verdicts of the solo runs
         for i in by_name:
             r = solo_res.get(i)
@@ -494,7 +498,7 @@ def check(case, cc):
             if collide and not diff_names and set(diff_content) <= collide:
                 continue        # which input wins a shared output name depends on the order: reported above
             if collide:
-                dev(O_TREE, 'two-inputs-share-output-names', '%s: %s output differs from the solo conversions in %r %r' % (what, mode, diff_names[:6], diff_content[:6]))
+                dev(O_TREE, SIG_SHARED if conv == 'RP66V1' else SIG_SHARED + ':' + conv, '%s: %s output differs from the solo conversions in %r %r' % (what, mode, diff_names[:6], diff_content[:6]))
                 continue
             sig = 'tree-differs:' + kind + (':names' if diff_names else ':contents')
             if mode == 'sequential' and not diff_names and case['channels'] and request_grows(tree, ref, diff_content):
